@@ -47,6 +47,52 @@ def build_harness():
     return time.time() - t0
 
 
+WRAP = os.path.join(VERIF, "harness-wrap")
+WBIN = os.path.join(WRAP, "target", "release", "vwrap")
+
+
+def build_wrap():
+    """The wrapper harness (tokio / parking_lot / dashmap / collections replacements), rebuilt from /repo's working tree."""
+    lock_dst = os.path.join(WRAP, "Cargo.lock")
+    if not os.path.exists(lock_dst):
+        shutil.copy(os.path.join(REPO, "Cargo.lock"), lock_dst)
+    env = dict(os.environ, CARGO_NET_OFFLINE="true")
+    t0 = time.time()
+    r = subprocess.run(["cargo", "build", "--release", "--offline"], cwd=WRAP, env=env,
+                       stdout=subprocess.PIPE, stderr=subprocess.STDOUT, text=True)
+    if r.returncode != 0:
+        raise ToolError("wrapper harness build failed:\n" + r.stdout[-4000:])
+    return time.time() - t0
+
+
+def file_hash(path):
+    h = hashlib.sha256()
+    with open(path, "rb") as f:
+        while True:
+            b = f.read(1 << 20)
+            if not b:
+                break
+            h.update(b)
+    return h.hexdigest()[:16]
+
+
+def run_wrap_enum(progs, outdir, cap=20000, jobs=8, pb=None, timeout=1800):
+    fresh_dir(outdir)
+    pfile = os.path.join(outdir, "in.ndjson")
+    write_ndjson(pfile, progs)
+    cmd = [WBIN, "enum", "--progs", pfile, "--out", outdir, "--cap", str(cap), "--jobs", str(jobs)]
+    if pb is not None:
+        cmd += ["--pb", str(pb)]
+    t0 = time.time()
+    try:
+        r = subprocess.run(cmd, stdout=subprocess.PIPE, stderr=subprocess.PIPE, text=True, timeout=timeout)
+    except subprocess.TimeoutExpired:
+        raise ToolError("wrapper enumeration timed out")
+    if r.returncode != 0:
+        raise ToolError("vwrap enum failed: " + r.stderr[-2000:])
+    return read_ndjson(os.path.join(outdir, "meta.ndjson")), time.time() - t0
+
+
 def bin_hash():
     h = hashlib.sha256()
     with open(BIN, "rb") as f:
@@ -164,7 +210,7 @@ def tlc_lines(outpath, tag):
                 yield line[len(pre):].rstrip()[:-2]
 
 
-def validate_trie(outdir, workers=8, timeout=1500):
+def validate_trie(outdir, workers=8, timeout=1500, module="TraceShuttle"):
     """Binding A: returns (reached_leaf_ids, all_leaf_ids, tlc_result)."""
     trie = os.path.join(outdir, "trie.ndjson")
     leaves = set()
@@ -174,7 +220,7 @@ def validate_trie(outdir, workers=8, timeout=1500):
             n += 1
             if line.startswith('{"kids":[],'):
                 leaves.add(i)
-    res = run_tlc("TraceShuttle", "TraceShuttle.cfg",
+    res = run_tlc(module, module + ".cfg",
                   {"PROGS": os.path.join(outdir, "progs.ndjson"), "TRIE": trie}, outdir, workers=workers,
                   timeout=timeout)
     reached = set()
@@ -214,7 +260,7 @@ def path_to(nodes, parent, leaf):
     return p  # node ids from the exec node down to the leaf
 
 
-def diagnose_leaf(outdir, nodes, parent, leaf, tag):
+def diagnose_leaf(outdir, nodes, parent, leaf, tag, module="TraceShuttle"):
     """Re-validate a single root-to-leaf trace with per-node reporting; return the longest matched
     prefix, the first unmatched event and the specification state before it."""
     path = path_to(nodes, parent, leaf)
@@ -224,7 +270,7 @@ def diagnose_leaf(outdir, nodes, parent, leaf, tag):
         lin.append({"kids": [i + 3] if i + 1 < len(path) else [], "ev": nodes[nid]["ev"]})
     write_ndjson(os.path.join(d, "trie.ndjson"), lin)
     shutil.copy(os.path.join(outdir, "progs.ndjson"), os.path.join(d, "progs.ndjson"))
-    res = run_tlc("TraceShuttle", "TraceShuttle.cfg",
+    res = run_tlc(module, module + ".cfg",
                   {"PROGS": os.path.join(d, "progs.ndjson"), "TRIE": os.path.join(d, "trie.ndjson"), "DIAG": "1"},
                   d, workers=1, timeout=300)
     best = 1
